@@ -100,6 +100,8 @@ class FakeEvent:
 
     def set(self):
         self._flag = True
+        if getattr(self, "_waiting", False):
+            self._woke = True          # a thread sleeping in wait() on THIS object wakes up, even if the flag is cleared again right away
 
     def clear(self):
         self._flag = False
@@ -110,7 +112,20 @@ class FakeEvent:
     def wait(self, timeout=None):
         if self.vc is None:
             raise Crash("Event.wait outside a scripted run")
-        return self.vc.wait(timeout)
+        vc = self.vc
+        hook = getattr(vc, "during_wait", None)
+        self._woke = False
+        if hook is not None:
+            self._waiting = True
+            try:
+                hook(vc.k)             # what other threads do while this worker sleeps (e.g. another generator being stopped)
+            finally:
+                self._waiting = False
+        if (self._flag or self._woke) and vc.k < len(vc.script):
+            # woken by a set() that is not the scripted stop of this run: the worker leaves its loop
+            vc.waits.append((vc.now, 0, True, vc.reads))
+            return True
+        return vc.wait(timeout)
 
 
 class FakeThread:
@@ -232,6 +247,13 @@ class Patched:
         self.ftime = FakeTime()
         clck_gen.time = self.ftime
         clck_gen.threading = FakeThreading
+        # synchronisation objects created when the class body ran (before this patch) are real ones: replace them, keeping their
+        # sharing (one object on the class = one object for all instances)
+        self.saved_cls = {}
+        for name, val in list(vars(clck_gen.CLCKGen).items()):
+            if isinstance(val, type(_real_threading.Event())):
+                self.saved_cls[name] = val
+                setattr(clck_gen.CLCKGen, name, FakeEvent())
         udp_link.socket = FakeSocketModule
         self.cap = LogCapture()
         self.cap.ftime = self.ftime
@@ -247,6 +269,8 @@ class Patched:
     def __exit__(self, *a):
         cg, ul = self.clck_gen, self.udp_link
         cg.time, cg.threading, ul.socket = self.saved
+        for name, val in self.saved_cls.items():
+            setattr(cg.CLCKGen, name, val)
         root = logging.getLogger()
         root.removeHandler(self.cap)
         for h in self.saved_log[1]:
@@ -280,6 +304,21 @@ def run_session(P, case):
     all_links = list(links)
     clk = cg.CLCKGen(links, **kw)
     clk._breaker.vc = vc
+    other_at = set(case.get("other_gen_at") or ())
+    if other_at:
+        # a second, independent generator object in the same process is started and stopped while this one sleeps between ticks
+        clk_b = cg.CLCKGen([], **kw)
+
+        def during_wait(k):
+            if k in other_at:
+                other_at.discard(k)
+                nthr = len(FakeThread.instances)
+                clk_b.start()
+                for th_b in FakeThread.instances[nthr:]:
+                    th_b.finished = True          # its worker leaves as soon as its own breaker is set
+                clk_b.stop()
+                del FakeThread.instances[nthr:]
+        vc.during_wait = during_wait
     calls = []
 
     astop = {"on": False, "thread": None, "err": None}
@@ -520,7 +559,8 @@ def make_case(rng, tick, idx):
     # stop() requested by the other thread while the handler of the run's last tick is busy (else: while the worker waits)
     astop = [i for i in range(nruns) if rng.chance(1, 2)] if nruns > 1 else []
     restart_at = sorted(set(rng.below(40) for _ in range(rng.range(1, 3)))) if handler and rng.chance(1, 4) else []
-    return dict(start=start, period=period, nlinks=nlinks, handler=handler, runs=runs, pats=pats, domain=True, astop=astop, restart_at=restart_at)
+    other_gen_at = sorted(set(rng.range(1, 40) for _ in range(rng.range(1, 2)))) if rng.chance(1, 5) else []
+    return dict(start=start, period=period, nlinks=nlinks, handler=handler, runs=runs, pats=pats, domain=True, astop=astop, restart_at=restart_at, other_gen_at=other_gen_at)
 
 
 def make_malformed(rng, tick):
